@@ -37,16 +37,45 @@ VARIANTS = (("rich", False, True), ("plain", True, True), ("rich-noprune", False
 
 
 def run_fast(ctx, h, idx, root):
+    """One history through exporter and importer; a failing one (python twin of the law) is minimised for its signature."""
+    names, variant, props = cc.names_of(idx), idx % len(VARIANTS), props_of(idx)
+    row = fast_once(ctx, h, idx, root, names, variant, props)
+    row["pyfail"] = kind_of(row)
+    row["props"] = bool(props)
+    if row["pyfail"] is not None:
+        row["min"], row["cls"], row["min_runs"] = cc.minimise_row(
+            h, kind_of, lambda c, nm: fast_once(ctx, c, idx, root, nm, variant, props), names)
+        if VARIANTS[variant][0] != "rich" and kind_of(fast_once(ctx, row["min"], idx, root, names, 0, props)) is None:
+            row["cls"] += "+" + VARIANTS[variant][0]             # needs the plain stream / the non-pruning importer
+        if props and kind_of(fast_once(ctx, row["min"], idx, root, names, variant, None)) is None:
+            row["cls"] += "+revision-property"                   # needs a revision property (every `brz commit` sets one)
+    return row
+
+
+NICK = {"branch-nick": "trunk"}
+
+
+def props_of(idx):
+    """Every fifth history carries the revision property an ordinary commit records (concretisation choice, like the
+    names): the properties' projection does not contain revision properties, but real histories do."""
+    return NICK if idx % 5 == 4 else None
+
+
+def kind_of(row):
+    return cc.py_failed(row["c"], row["o"])
+
+
+def fast_once(ctx, h, idx, root, names, variant, props=None):
     from breezy import branch as B
     from breezy.plugins.fastimport import exporter
     from breezy.plugins.fastimport.processors import generic_processor
     from fastimport import parser
-    cc.set_names(idx)
-    name, plain, prune = VARIANTS[idx % len(VARIANTS)]
+    cc.set_names(names)
+    name, plain, prune = VARIANTS[variant]
     work = tempfile.mkdtemp(prefix="c44-", dir=root)
     o, stream = None, b""
     try:
-        b = cc.materialise(ctx, h, os.path.join(work, "src"))
+        b = cc.materialise(ctx, h, os.path.join(work, "src"), props)
         try:
             out = io.BytesIO()
             exporter.BzrFastExporter(b, out, ref=b"refs/heads/master", plain_format=plain).run()
@@ -133,36 +162,37 @@ def run(ctx):
     ctx.assume("timestamps are whole seconds (the stream format carries no fractions)")
     bad = cc.judge(ctx, rows)
     emptydirs = 0
+    judged_bad = set()
     for row, failed, drifts, notes in bad:
         h, o = row["c"], row["o"]
         if "emptydirs" in notes:
             emptydirs += 1
         if not failed:
             continue
-        cls = "merge" if any(len(ps) > 1 for ps in h["P"]) else "linear"
+        judged_bad.add(row["idx"])
+        cls = row.get("cls") or ("unminimised-" + ("merge" if any(len(ps) > 1 for ps in h["P"]) else "linear"))
+        rep = dict(cc.lean(row), stream=row["diag"]["stream"], raw=o.get("raw"), minimal=row.get("min"))
+        where = "variant %s, minimal failing history %s, found in %s" % (row["variant"], cc.hkey(row.get("min") or h), cc.hkey(h))
         if not o["ok"]:
-            ctx.violation("%s:%s@%s:%s:%s" % (o.get("stage"), o["exc"], o["site"], row["variant"].split("-")[0], cls),
-                          "fast-%s fails with %s: %s (variant %s, history %s)" % (
-                              o.get("stage"), o["exc"], o.get("emsg"), row["variant"], cc.hkey(h)),
-                          dict(cc.lean(row), stream=row["diag"]["stream"]))
-            continue
-        rep = dict(cc.lean(row), stream=row["diag"]["stream"], raw=o.get("raw"))
-        v = row["variant"].split("-")[0]
-        if "count" in failed or "shape" in failed or "left" in failed:
-            ctx.violation("graph:%s:%s:%s" % ("+".join(x for x in ("count", "shape", "left") if x in failed), v, cls),
-                          "imported revision graph differs: %s (%d revisions in the repository) from %s (variant %s)" % (
-                              o["P"], o["nrevs"], h["P"], row["variant"]), rep)
+            ctx.violation("%s:%s@%s:%s" % (o.get("stage"), o["exc"], o["site"], cls),
+                          "fast-%s fails with %s: %s (%s)" % (o.get("stage"), o["exc"], o.get("emsg"), where), rep)
+        elif {"count", "shape", "left"} & set(failed):
+            ctx.violation("graph:%s:%s" % ("+".join(x for x in ("count", "shape", "left") if x in failed), cls),
+                          "imported revision graph is %s (%d revisions in the repository), source graph is %s (%s)" % (
+                              o["P"], o["nrevs"], h["P"], where), rep)
         elif "trees" in failed:
-            sig, desc = cc.tree_signature(h, o)
-            ctx.violation("trees:%s:%s" % (v, sig), "imported tree differs, %s (variant %s, history %s)" % (
-                desc, row["variant"], cc.hkey(h)), rep)
-        for clause, field in (("message", "msg"), ("committer", "who"), ("time", "ts")):
-            if clause in failed and not ("shape" in failed or "count" in failed):
-                ctx.violation("%s:%s:%s" % (clause, v, meta_signature(h, o, field) if clause != "time" else
-                                            "ts=%s;tz=%s" % (meta_signature(h, o, "ts"), meta_signature(h, o, "tz"))),
-                              "imported %s differs: %s -> %s (variant %s)" % (
-                                  clause, [m for m in h["M"]], o.get("raw"), row["variant"]), rep)
-        if "tags" in failed and not ({"shape", "count", "trees", "message", "committer", "time"} & set(failed)):
-            ctx.violation("tags:%s" % v, "imported tags differ: %s -> %s (variant %s, history %s)" % (
-                h["tags"], o["tags"], row["variant"], cc.hkey(h)), rep)
+            _, desc = cc.tree_signature(h, o)
+            ctx.violation("trees:%s" % cls, "imported tree differs: %s (%s)" % (desc, where), rep)
+        else:
+            for clause, fields in (("message", ("msg",)), ("committer", ("who",)), ("time", ("ts", "tz"))):
+                if clause in failed:
+                    ctx.violation("%s:%s" % (clause, ";".join("%s=%s" % (f, meta_signature(h, o, f)) for f in fields)),
+                                  "imported %s differs: %s -> %s (%s)" % (clause, h["M"], o.get("raw"), where), rep)
+            if "tags" in failed and not ({"message", "committer", "time"} & set(failed)):
+                ctx.violation("tags:%s" % cls, "imported tags are %s, source tags are %s (%s)" % (o["tags"], h["tags"], where), rep)
+    for r in rows:                                             # the python twin only serves minimisation; it must agree
+        if (r["pyfail"] is not None) != (r["idx"] in judged_bad):
+            ctx.drift("python twin of the law (%s) and TLC (%s) disagree on history %s" % (
+                r["pyfail"], r["idx"] in judged_bad, cc.hkey(r["c"])), cc.lean(r))
     ctx.cov["histories_with_empty_directory_differences"] = emptydirs
+    ctx.cov["minimisation_runs"] = sum(r.get("min_runs", 0) for r in rows)
